@@ -16,15 +16,15 @@ import (
 
 var c06Truthy = []string{"yes", "true", "1"}
 
-// layout: 0 none; 1 two scalars, struct required; 2 two scalars, first has required; 3 scalar + rest required:"2";
+// layout: 0 none; 1 three scalars, struct required; 2 two scalars, first has required; 3 scalar + rest required:"2";
 // 4 rest required:"1-2"; 5 rest required:"0-1"; 6 two scalars optional (no marks)
 func c06Pos(layout int) ([]*decl.PosArg, string) {
 	pa := func(n, req string, t *decl.Type) *decl.PosArg {
 		return &decl.PosArg{Field: n, Name: "ARG%" + n, Type: t, Required: req}
 	}
 	switch layout {
-	case 1:
-		return []*decl.PosArg{pa("X", "", decl.TString), pa("Y", "", decl.TString)}, "yes"
+	case 1: // three, so that up to three of them are missing at once (the message has to name all of them)
+		return []*decl.PosArg{pa("X", "", decl.TString), pa("Y", "", decl.TString), pa("W", "", decl.TString)}, "yes"
 	case 2:
 		return []*decl.PosArg{pa("X", "yes", decl.TString), pa("Y", "", decl.TString)}, ""
 	case 3:
@@ -215,7 +215,7 @@ func init() {
 		Body:       body,
 		DevBound:   func(bool) int { return 1 },
 		Rule: "tree parser -> a -> b, sibling c, 6 options (c's option re-declares the long name of one of the parser's); all 64 subsets marked required (spellings yes/true/1, the others unmarked or marked false/no/0) x positional layouts " +
-			"{none, 2 scalars struct-required, per-field required, rest required 2, 1-2, 0-1, optional, two scalars made required by setting Command.ArgsRequired in the program} on b or on the parser x {tags, API} x every sequence of <= 3 (quick) / <= 4 (thorough) units " +
+			"{none, 3 scalars struct-required (up to three missing at once), per-field required, rest required 2, 1-2, 0-1, optional, two scalars made required by setting Command.ArgsRequired in the program} on b or on the parser x {tags, API} x every sequence of <= 3 (quick) / <= 4 (thorough) units " +
 			"supplying options by short, long=, separate and cluster spellings, command words, plain words, the empty word and the -- terminator (PassDoubleDash set; words after it still count for the positional constraints); one more deviation makes subcommands mandatory at both inner levels (a missing required option is still ErrRequired, not ErrCommandRequired); option types bool, string, func(), []bool; one more deviation has an INI file supply two of the options, read before the parse (plain or as defaults) or by the default of a callback option declared after them; oracle = CLM missing set: ErrRequired iff something on the active chain is missing, " +
 			"message names every missing item and none that is supplied or belongs to an unselected command; nothing executed",
 		Assumptions:  []string{"required options carry no default/env here (whether a default supplies a required option is not settled by the statement)", "markers are long option names / positional names chosen so that none is a substring of another"},
